@@ -64,7 +64,7 @@ CLAIMED = {
                      "and lets no non-Send/non-Sync payload cross threads, outside known class K14a (F3, refuted with witness); the "
                      "conflict-free neighbours are accepted. A generated family of 132 programs is compiled by the real rustc (trait "
                      "resolution crate + borrow-check crate), verdicts compared with the property and with the model. PARTIAL: rustc's "
-                     "trait solver and borrow checker are the oracle for the bounds themselves.",
+                     "trait solver and borrow checker are the oracle for the bounds themselves. The Disjoint bound between views and entry views is present on every public way to a query result (query, par_query, run_system, run_par_system, both Task impls): a source-derived fact the acceptance model depends on, with programs through each of them.",
                 technique="Rocq proof that the modelled API bounds imply no aliasing / no thread escape (facts regenerated from signatures) + rustc verdicts on a generated program family",
                 ref="DESIGN.md §7 C14"),
     "C09": dict(engine="world-histories",
@@ -75,7 +75,9 @@ CLAIMED = {
                      "splitting; the column zip hands each row index to exactly one item. par_query counterparts of the query "
                      "family (collect, and for_each that overwrites through mutable views) run inside the world histories on "
                      "pools of 1/2/4/16 threads; rows compared with the sequential semantics, addresses of mutable items "
-                     "pairwise distinct. PARTIAL: rayon's bridge/producers and hashbrown's RawParIter by contract; no real "
+                     "pairwise distinct; 'the outcome of a parallel system equals that of its sequential counterpart' is also judged "
+                     "inside schedules (every run of a schedule containing a ParSystem must end in the state its tasks produce one "
+                     "by one). PARTIAL: rayon's bridge/producers and hashbrown's RawParIter by contract; no real "
                      "interleavings in the model.",
                 technique="Rocq proof of the consumer/folder algebra under arbitrary split trees (rayon by contract) + par vs seq differential execution on several pool sizes",
                 ref="DESIGN.md §7 C09"),
